@@ -25,9 +25,10 @@
        what the code reports in every case) and
        C07_heterogeneous_boundary_example (concrete divergence from the
        property's wording; outside the property's scope, see DESIGN 3). *)
-From Coq Require Import ZArith List Bool.
-From SK Require Import Model.Task Spec.Task Proofs.TaskFlush Proofs.TaskLoop
-     Proofs.TaskSimple Proofs.TaskGating Gen.Params.
+From Coq Require Import String ZArith List Bool.
+From SK Require Import Model.Skel Model.Stm Model.Task Model.TaskSk Spec.Task
+     Proofs.TaskFlush Proofs.TaskLoop Proofs.TaskSimple Proofs.TaskGating
+     Proofs.TaskSk Gen.Params Gen.Skeleton Gen.SkelTree Gen.XTask.
 Import ListNotations.
 Open Scope Z_scope.
 
@@ -219,6 +220,51 @@ Proof.
   apply simple_constrained_exact. vm_compute. discriminate.
 Qed.
 
+(* ---- T1: the model mirrors the CURRENT source (see Model/TaskSk.v) ---- *)
+(* control skeletons regenerated from the source = the shapes the model's
+   branches are written against (exit kinds included: a `continue` turned
+   into a `break` or a lost early `return` breaks these) *)
+Theorem C07_apply_single_shape :
+  xshape tk_apply_single sk_apply_single = Some x_apply_single.
+Proof. vm_compute. reflexivity. Qed.
+
+Theorem C07_apply_to_line_shape :
+  xshape tk_apply_to_line sk_apply_to_line = Some x_apply_to_line.
+Proof. vm_compute. reflexivity. Qed.
+
+Theorem C07_apply_global_shape :
+  xshape tk_apply_global sk_apply_global = Some x_apply_global.
+Proof. vm_compute. reflexivity. Qed.
+
+(* the per-line / per-definition loop with the apply_single gate *)
+Theorem C07_run_search_shape :
+  xshape tk_run_search sk_run_search = Some x_run_search.
+Proof. vm_compute. reflexivity. Qed.
+
+(* the flag updates and return values of apply_single (local variables, not
+   events), as extracted from the source, are the model's *)
+Theorem C07_apply_single_source_updates :
+  mkAsSrc as_ret_empty as_init as_on_pass as_on_undecided as_ret_fail
+          as_ret_end = as_src_model.
+Proof. reflexivity. Qed.
+
+(* apply_single: executing the extracted skeleton with those updates - Pass
+   -> flag, continue; CouldNotApplyConstraint handler -> flag, continue;
+   falling through (Fail) -> return (False, False) at once; after the loop
+   return the flags - is the model's apply_single, for every list of
+   constraint outcomes *)
+Theorem C07_apply_single_is_model :
+  forall outs : list outcome,
+    on_shape (xshape tk_apply_single sk_apply_single)
+             (run_apply_single_tree
+                (mkAsSrc as_ret_empty as_init as_on_pass as_on_undecided
+                         as_ret_fail as_ret_end) outs) =
+    Some (apply_single outs).
+Proof.
+  exact (apply_single_on_shape _ _ C07_apply_single_shape
+                               C07_apply_single_source_updates).
+Qed.
+
 (* ---- non-vacuity ---- *)
 (* pattern 1 matches every line (group 0 = value 10+i).  d1 carries
    constraint 1, d2 none.  Lines: undated, too old, in window, undated,
@@ -293,3 +339,4 @@ Print Assumptions C07_active_sees_every_line.
 Print Assumptions C07_neighbours_unaffected.
 Print Assumptions C07_restricted_file_not_seeked.
 Print Assumptions C07_own_constraint_exact_current_constants.
+Print Assumptions C07_apply_single_is_model.
